@@ -153,14 +153,15 @@ func (h *Transport) Unmarshal(v base.HeaderValue) error {
 		return fmt.Errorf("value provided multiple times (%v)", v)
 	}
 
-	kvs, err := keyValParse(v[0], ';')
+	keys, kvs, err := keyValParseOrdered(v[0], ';')
 	if err != nil {
 		return err
 	}
 
 	profileFound := false
 
-	for k, rv := range kvs {
+	for _, k := range keys {
+		rv := kvs[k]
 		v := rv
 
 		switch k {
